@@ -14,8 +14,11 @@ func ForeachLeaf(val rel.Value, path string, leafAction func(val rel.Value, path
 
 	switch v := val.(type) {
 	case rel.Array:
-		for i, item := range v.Values() {
-			ForeachLeaf(item, fmt.Sprintf("%s(%d)", path, i), leafAction)
+		// Enumerate the (@, @item) pairs rather than the backing slice: the holes of a
+		// sparse array are not leaves, and the index includes the array's offset.
+		for e := v.Enumerator(); e.MoveNext(); {
+			item := e.Current().(rel.Tuple)
+			ForeachLeaf(item.MustGet(rel.ArrayItemAttr), fmt.Sprintf("%s(%s)", path, item.MustGet("@").String()), leafAction)
 		}
 	case rel.Dict:
 		for _, entry := range v.OrderedEntries() {
